@@ -92,12 +92,39 @@ func waitLoopParked(d time.Duration) bool {
 	return false
 }
 
+func within(d time.Duration, fn func()) bool {
+	done := make(chan struct{})
+	go func() { fn(); close(done) }()
+	select {
+	case <-done:
+		return true
+	case <-time.After(d):
+		return false
+	}
+}
+
+// healthHung is set when /health did not answer: the process-wide health lock is then stuck and nothing further can be learnt
+var healthHung atomic.Bool
+
 func getHealth(h http.Handler) bool {
-	rec := httptest.NewRecorder()
-	req := httptest.NewRequest("GET", "/health", nil)
-	req.RemoteAddr = "127.0.0.1:1234"
-	h.ServeHTTP(rec, req)
-	return rec.Code == 200
+	if healthHung.Load() {
+		return false
+	}
+	done := make(chan bool, 1)
+	go func() {
+		rec := httptest.NewRecorder()
+		req := httptest.NewRequest("GET", "/health", nil)
+		req.RemoteAddr = "127.0.0.1:1234"
+		h.ServeHTTP(rec, req)
+		done <- rec.Code == 200
+	}()
+	select {
+	case ok := <-done:
+		return ok
+	case <-time.After(5 * time.Second):
+		healthHung.Store(true)
+		return false
+	}
 }
 
 func setOutcome(tok, o string) {
@@ -125,6 +152,9 @@ func waitPings(n int, d time.Duration) bool {
 }
 
 func replayOne(r *res.Result, dir string, b *beh) {
+	if healthHung.Load() {
+		return
+	}
 	faketoken.Reset()
 	base := loopGoroutines()
 	cfg, err := writeConfig(dir, b, interval)
@@ -147,6 +177,9 @@ func replayOne(r *res.Result, dir string, b *beh) {
 	_ = key
 	// the loop's own immediate first check (all tokens ok): part of every behaviour's prefix
 	if !waitPings(len(b.Tokens), 5*time.Second) {
+		if healthHung.Load() {
+			return
+		}
 		fail(-1, "the background loop never ran its first check")
 		srv.Close()
 		return
@@ -168,9 +201,17 @@ func replayOne(r *res.Result, dir string, b *beh) {
 			for t, o := range s.O {
 				setOutcome(t, o)
 			}
-			srv.VerifHealthCheckOnce()
+			if !within(20*time.Second, func() { srv.VerifHealthCheckOnce() }) {
+				healthHung.Store(true)
+				fail(i, "a token check round did not return within 20 s (the health lock is held forever)")
+				return
+			}
 		case "Tick":
-			server.VerifAgeLastPing(time.Duration(interval/2-2) * time.Second)
+			if !within(5*time.Second, func() { server.VerifAgeLastPing(time.Duration(interval/2-2) * time.Second) }) {
+				healthHung.Store(true)
+				fail(i, "the health state cannot be touched any more (the health lock is held forever)")
+				return
+			}
 		case "Close":
 			srv.Close()
 			closed = true
@@ -184,7 +225,16 @@ func replayOne(r *res.Result, dir string, b *beh) {
 			}
 		}
 		got := getHealth(h)
-		st, _ := server.VerifHealthState()
+		if healthHung.Load() {
+			fail(i, "GET /health did not answer within 5 s (a lock is held forever)")
+			return
+		}
+		var st int
+		if !within(5*time.Second, func() { st, _ = server.VerifHealthState() }) {
+			healthHung.Store(true)
+			fail(i, "after /health answered, the health state can no longer be read (the health lock is held forever)")
+			return
+		}
 		if got != s.H || st != s.St {
 			fail(i, "after %s %v: /health=%v counter=%d, specification says healthy=%v counter=%d", s.A, s.O, got, st, s.H, s.St)
 			break
